@@ -77,7 +77,8 @@ type Op struct {
 	Sub     string    `json:"sub,omitempty"`
 	N       int64     `json:"n,omitempty"`
 	Opts    *OpenOpts `json:"opts,omitempty"`
-	RmIdx   []string  `json:"rmidx,omitempty"` // index files removed while the log is closed
+	RmIdx   []string  `json:"rmidx,omitempty"`  // index files removed while the log is closed
+	CutIdx  bool      `json:"cutidx,omitempty"` // ... cut back to their header instead (an index without items)
 	Handles int       `json:"handles,omitempty"`
 	Fresh   bool      `json:"fresh,omitempty"`
 	ToV1    bool      `json:"to_v1,omitempty"`
@@ -126,6 +127,9 @@ func backoffFor(failAt int) (context.Context, klevdb.DeleteMultiBackoff, func())
 		}
 		if failAt%2 == 0 {
 			cancel()
+			if failAt == 4 && !lib {
+				return nil // a back-off that does not look at the context: the helper may go on or stop, but must report what it did
+			}
 			if lib {
 				return klevdb.DeleteMultiWithWait(time.Hour)(c) // must return at once: the context is cancelled
 			}
@@ -240,6 +244,7 @@ type Env struct {
 	bkOld     []oldBackup
 	bkSeq     int
 	coldSeq   int
+	cutNames  map[string]bool // index files cut to their header by the harness since the last close
 	rep       map[int64]uint8 // how a missing key/value of each offset was first handed out (nil or empty)
 	flags     map[string]bool
 	closed    bool
@@ -936,6 +941,9 @@ func sameFilesExceptNewIndex(a, b map[string][]byte) string {
 			return "file " + n + " disappeared"
 		}
 		if string(x) != string(y) {
+			if strings.HasSuffix(n, ".index") && len(x) <= 8 && len(y) > len(x) {
+				continue // an index without items was rebuilt, like a missing one
+			}
 			return "file " + n + " changed"
 		}
 	}
@@ -970,7 +978,13 @@ func (e *Env) openLog(o OpenOpts) {
 func (e *Env) applyReopen(op Op) {
 	e.closeLog()
 	e.atClose()
+	if op.CutIdx {
+		e.emptyIndexFiles(op.RmIdx)
+	}
 	for _, n := range op.RmIdx {
+		if op.CutIdx {
+			break
+		}
 		if err := os.Remove(filepath.Join(e.Dir, n)); err == nil {
 			e.flag("rmidx")
 			e.St.Inc("index_files_removed")
@@ -1044,6 +1058,15 @@ func (e *Env) mixedVersions() bool {
 
 // atClose runs the C11 oracles on the closed directory.
 func (e *Env) atClose() {
+	// an index file this harness cut to its header and that no call has needed since is still without items: for the
+	// oracles below that is a missing index, not a wrong one
+	for n := range e.cutNames {
+		p := filepath.Join(e.Dir, n)
+		if fi, err := os.Stat(p); err == nil && fi.Size() <= 8 {
+			_ = os.Remove(p)
+		}
+	}
+	e.cutNames = nil
 	if e.own("index") {
 		if err := CheckClosedDir(e.Dir, e.Cfg.KeyIndex, e.Cfg.TimeIndex, e.M.Mono); err != nil {
 			e.failf("index", "closed directory: %v", err)
@@ -1164,8 +1187,37 @@ func (e *Env) missingIndexFiles() bool {
 		if !sg.HasIdx {
 			return true
 		}
+		if len(sg.Recs) > 0 && sg.IdxLen <= 8 {
+			return true // an index without items next to a log with records: to be rebuilt, like a missing one
+		}
 	}
 	return false
+}
+
+// emptyIndexFiles cuts the named index files back to their header (nothing at all for the V1 container): an index
+// without items, which every open path treats like a missing one.
+func (e *Env) emptyIndexFiles(names []string) {
+	for _, n := range names {
+		p := filepath.Join(e.Dir, n)
+		b, err := os.ReadFile(p)
+		if err != nil {
+			continue
+		}
+		keep := 0
+		if IsV2Index(b) {
+			keep = 8
+		}
+		if len(b) > keep {
+			if err := os.WriteFile(p, b[:keep], 0600); err == nil {
+				e.flag("rmidx")
+				e.St.Inc("index_files_cut_to_their_header")
+				if e.cutNames == nil {
+					e.cutNames = map[string]bool{}
+				}
+				e.cutNames[n] = true
+			}
+		}
+	}
 }
 
 func (e *Env) canCheck() bool { return !e.Cfg.TimeIndex || e.M.Mono }
@@ -1310,6 +1362,9 @@ func (e *Env) applyBackup(op Op) {
 		}
 		for n, t0 := range srcTimes {
 			if t1, ok := mtimes(e.Dir)[n]; ok && !t1.Equal(t0) {
+				if strings.HasSuffix(n, ".index") && len(src[n]) <= 8 {
+					continue // an index without items was rebuilt
+				}
 				e.failf("backup", "Backup changed the modification time of source file %s", n)
 			}
 		}
@@ -1374,7 +1429,13 @@ func (e *Env) applyBackupRO(op Op) {
 		e.St.Inc("backup_repeated")
 	}
 	e.closeLog()
+	if op.CutIdx {
+		e.emptyIndexFiles(op.RmIdx)
+	}
 	for _, n := range op.RmIdx {
+		if op.CutIdx {
+			break
+		}
 		if err := os.Remove(filepath.Join(e.Dir, n)); err == nil {
 			e.flag("rmidx")
 		}
@@ -1444,7 +1505,13 @@ func mtimes(dir string) map[string]time.Time {
 
 func (e *Env) applyRO(op Op) {
 	e.closeLog()
+	if op.CutIdx {
+		e.emptyIndexFiles(op.RmIdx)
+	}
 	for _, n := range op.RmIdx {
+		if op.CutIdx {
+			break
+		}
 		if err := os.Remove(filepath.Join(e.Dir, n)); err == nil {
 			e.flag("rmidx")
 		}
@@ -1458,7 +1525,8 @@ func (e *Env) applyRO(op Op) {
 	o := e.Opts
 	// Recover on a read-only open must be harmless (a cleanly closed log needs no repair)
 	o.Recover = e.Opts.Recover || op.Handles == 3
-	if !e.canCheck() {
+	if !e.canCheck() || op.CutIdx {
+		// (an index without items is not "missing" for Check: it is an index that does not match its log)
 		o.Check, o.Recover = false, false
 	}
 	opts := o.Options(e.Cfg)
